@@ -42,7 +42,9 @@ type BatchCfg struct {
 	Sched   string // "script" (follow release order), "random", "free", "barrier"
 	CtxKind string
 	GenSeed string
-	ModeSet bool // error-handling mode was set explicitly
+	ModeSet bool  // error-handling mode was set explicitly
+	Barrier []int // barrier schedule: the items (1-based) that wait for each other; all others return at once
+	WarmC   int   // > 0: the same node object first performs a run with this concurrency, then is reconfigured
 }
 
 func parseBatchCfg(m map[string]any) BatchCfg {
@@ -50,7 +52,10 @@ func parseBatchCfg(m map[string]any) BatchCfg {
 		Fb: asBool(m["fb"]), Ctx0: asBool(m["ctx0"]), Cancel: asBool(m["cancel"]), PrepErr: asBool(m["preperr"]),
 		PostErr: asBool(m["posterr"]), Gated: asBool(m["gated"]), Strict: asBool(m["strict"]),
 		Shape: asStr(m["shape"]), ExSty: asStr(m["exsty"]), Via: asStr(m["via"]), Sched: asStr(m["sched"]),
-		CtxKind: asStr(m["ctxkind"]), GenSeed: asStr(m["genseed"])}
+		CtxKind: asStr(m["ctxkind"]), GenSeed: asStr(m["genseed"]), WarmC: asInt(m["warmc"])}
+	for _, a := range asList(m["barrier"]) {
+		c.Barrier = append(c.Barrier, asInt(a))
+	}
 	for _, a := range asList(m["acts"]) {
 		c.Acts = append(c.Acts, asInt(a))
 	}
@@ -84,9 +89,14 @@ func (c BatchCfg) toJSON() map[string]any {
 	for _, a := range c.Outs {
 		outs = append(outs, a)
 	}
+	bar := []any{}
+	for _, a := range c.Barrier {
+		bar = append(bar, a)
+	}
 	return map[string]any{"N": c.N, "n": c.Items, "c": c.C, "stopmode": c.StopMode, "w": c.W, "fb": c.Fb, "ctx0": c.Ctx0,
 		"cancel": c.Cancel, "acts": acts, "outs": outs, "preperr": c.PrepErr, "posterr": c.PostErr, "gated": c.Gated,
-		"strict": c.Strict, "shape": c.Shape, "exsty": c.ExSty, "via": c.Via, "sched": c.Sched, "ctxkind": c.CtxKind, "genseed": c.GenSeed}
+		"strict": c.Strict, "shape": c.Shape, "exsty": c.ExSty, "via": c.Via, "sched": c.Sched, "ctxkind": c.CtxKind, "genseed": c.GenSeed,
+		"barrier": bar, "warmc": c.WarmC}
 }
 
 // ---- script ----------------------------------------------------------------
@@ -218,12 +228,17 @@ type batchRun struct {
 	done        chan struct{}
 	rng         *rand.Rand
 	barrier     chan struct{}
+	inBarrier   map[int]bool
+	warm        bool // the warm-up run is in progress: callbacks do not log
 	barrierN    int
 	barrierOnce sync.Once
 	stuck       bool
 }
 
 func (b *batchRun) log(e Event) {
+	if b.warm {
+		return
+	}
 	b.mu.Lock()
 	b.events = append(b.events, e)
 	switch e["ev"] {
@@ -258,6 +273,9 @@ func (b *batchRun) itemOf(v any) (int, int, bool) {
 // the user's exec function (common part): entry event, gate, exit event
 // exec returns (value, error carried by an error Result, Go error)
 func (b *batchRun) exec(arg Obs) (any, error, error) {
+	if b.warm {
+		return nil, nil, nil
+	}
 	item := -1
 	if arg.Tok > 0 && arg.Tok%1000 == 0 {
 		item = arg.Tok / 1000
@@ -269,7 +287,7 @@ func (b *batchRun) exec(arg Obs) (any, error, error) {
 	b.events = append(b.events, Event{"ev": "execin", "item": item, "k": k, "arg": arg.Tok, "aid": arg.Same && arg.Wrap == "raw" && !arg.IsErr, "gid": g})
 	b.nItemEv++
 	var pc *parkedCall
-	if b.cfg.Sched == "script" || b.cfg.Sched == "random" {
+	if b.cfg.Sched == "script" || b.cfg.Sched == "random" || b.cfg.Sched == "wave" {
 		pc = &parkedCall{item: item, k: k, ch: make(chan struct{})}
 		b.parked = append(b.parked, pc)
 	}
@@ -287,12 +305,12 @@ func (b *batchRun) exec(arg Obs) (any, error, error) {
 			b.stuck = true
 			b.mu.Unlock()
 		}
-	case b.cfg.Sched == "barrier" && item >= 1 && item <= b.barrierN && k == 1:
-		// the first c items wait for each other: all c must be in flight at once
+	case b.cfg.Sched == "barrier" && b.inBarrier[item] && k == 1:
+		// c mutually dependent items wait for each other: all c must get in flight at once
 		b.mu.Lock()
 		arrived := 0
 		for _, e := range b.events {
-			if e["ev"] == "execin" && e["k"] == 1 && e["item"].(int) >= 1 && e["item"].(int) <= b.barrierN {
+			if e["ev"] == "execin" && e["k"] == 1 && b.inBarrier[e["item"].(int)] {
 				arrived++
 			}
 		}
@@ -307,6 +325,16 @@ func (b *batchRun) exec(arg Obs) (any, error, error) {
 			b.stuck = true
 			b.mu.Unlock()
 			b.barrierOnce.Do(func() { close(b.barrier) })
+		}
+	case b.cfg.Sched == "bigstop":
+		if item == 1 {
+			b.barrierOnce.Do(func() { close(b.barrier) }) // the failure is about to be returned
+		} else if item <= b.cfg.C {
+			select {
+			case <-b.barrier:
+			case <-time.After(2 * time.Second):
+			}
+			time.Sleep(150 * time.Microsecond) // ... and an in-flight item succeeds shortly afterwards
 		}
 	case b.cfg.Sched == "free":
 		// unsynchronised: a short random pause to shuffle completion orders
@@ -373,7 +401,7 @@ func (b *batchRun) itemTokens() []any {
 }
 
 func (b *batchRun) prepEvent(shared *flyt.SharedStore) (Event, bool) {
-	ok := b.sc.Prep == "ok"
+	ok := b.sc.Prep == "ok" || b.warm
 	ev := Event{"ev": "bprep", "sok": shared == b.store, "out": b.sc.Prep, "n": 0, "items": []any{}, "err": 0}
 	if ok {
 		ev["n"] = b.cfg.Items
@@ -385,6 +413,9 @@ func (b *batchRun) prepEvent(shared *flyt.SharedStore) (Event, bool) {
 }
 
 func (b *batchRun) post(shared *flyt.SharedStore, items, results []flyt.Result) (flyt.Action, error) {
+	if b.warm {
+		return flyt.DefaultAction, nil
+	}
 	o := b.sc.Post
 	its := []any{}
 	for _, r := range items {
@@ -602,6 +633,36 @@ func (b *batchRun) controller() {
 				time.Sleep(b.settle)
 			}
 		}
+		if b.cfg.Sched == "wave" {
+			// simultaneous completions: wait for a full wave of c parked calls, then open all gates together
+			want := b.cfg.C
+			if want < 1 {
+				want = 1
+			}
+			waitParked(func() *parkedCall {
+				if len(b.parked) >= want {
+					return b.parked[0]
+				}
+				return nil
+			}, 3*time.Millisecond)
+			b.mu.Lock()
+			wave := b.parked
+			b.parked = nil
+			b.mu.Unlock()
+			if len(wave) == 0 {
+				select {
+				case <-b.done:
+					return
+				case <-b.parkCh:
+				case <-time.After(200 * time.Microsecond):
+				}
+				continue
+			}
+			for _, p := range wave {
+				close(p.ch)
+			}
+			continue
+		}
 		if pc == nil {
 			// off-script (or random schedule): release any parked call
 			pc = waitParked(func() *parkedCall {
@@ -643,7 +704,29 @@ func runBatchScenario(cfg BatchCfg, sc *BatchScript, seed int64) []Event {
 	if b.barrierN > cfg.Items {
 		b.barrierN = cfg.Items
 	}
+	b.inBarrier = map[int]bool{}
+	if len(cfg.Barrier) > 0 {
+		for _, i := range cfg.Barrier {
+			b.inBarrier[i] = true
+		}
+		b.barrierN = len(cfg.Barrier)
+	} else {
+		for i := 1; i <= b.barrierN; i++ {
+			b.inBarrier[i] = true
+		}
+	}
 	bn := b.build()
+	if cfg.WarmC > 0 {
+		// the same node object has been run before with another concurrency level
+		b.warm = true
+		bn.WithBatchConcurrency(cfg.WarmC)
+		flyt.Run(context.Background(), bn, b.store)
+		bn.WithBatchConcurrency(cfg.C)
+		b.warm = false
+		b.mu.Lock()
+		b.events, b.att, b.nItemEv, b.gids = nil, map[int]int{}, 0, map[int64]int{}
+		b.mu.Unlock()
+	}
 	var ctx context.Context
 	if cfg.CtxKind == "deadline" {
 		mc := newManualDeadlineCtx()
